@@ -392,15 +392,24 @@ class Closers:
                     k += 1
                     if k > 5000:
                         break
-                # the name is compared stripped: \begin{ a } is closed by \end{a}
-                e = a - 1
-                for _ in range(60):
-                    e = T.find('}', e + 1)
-                    if e == -1 or e >= j:
+                # the name is compared stripped: \begin{ a } is closed by \end{a}.
+                # Walk the stripped name forward; it ends where the \end side has
+                # its '}' and the \begin side has only whitespace before its '}'
+                # (no bound on how many braces the name itself contains)
+                a2 = a
+                while a2 < j and T[a2].isspace():
+                    a2 += 1
+                k = 0
+                while b + k < n and k <= 5000:
+                    if T[b + k] == '}' and (k == 0 or not T[b + k - 1].isspace()):
+                        m = a2 + k
+                        while m < j and T[m].isspace():
+                            m += 1
+                        if m < j and T[m] == '}' and (m > a2 + k or a2 > a):
+                            found.add(5 + k + 1)
+                    if a2 + k >= j or T[a2 + k] != T[b + k]:
                         break
-                    x = T[a:e].strip()
-                    if x != T[a:e] and T.startswith(x + '}', j + 5):
-                        found.add(5 + len(x) + 1)
+                    k += 1
             out.extend(sorted(found, reverse=True))
         self.cache[j] = out
         return out
